@@ -36,6 +36,7 @@ def strategy(tier):
         c = draw(lossgen.loss_case(kinds=kinds, weights=(mode != "truth"), target_param="any-order", max_states=3,
                                    n_times=(4, 8), allow_time=False, catalogue=2))
         c["mode"] = mode
+        c["polish"] = draw(st.integers(0, 2)) == 0
         if mode == "truth":
             c["noise"] = 0.0
         m = c["model"]
@@ -140,6 +141,18 @@ def oracle(case, rec):
     rec.label("mode:" + case["mode"], "loss:" + case["loss"], "free:%d" % len(case["start"]))
     model, obj = call(key + "/construct", case, lossgen.build, case, y)
     lb, ub, start = np.array(case["lb"]), np.array(case["ub"]), np.array(case["start"])
+    if case.get("polish") and case["mode"] == "box" and not case.get("one_sided"):
+        # the user starts fit where a previous, derivative-free search of this very cost ended (a point close to the
+        # minimiser of THIS loss class's cost inside the box): fit must not hand back something worse
+        from scipy.optimize import minimize
+        try:
+            r_ = minimize(lambda th: float(obj.cost(np.asarray(th, float))), start.astype(float), method="Nelder-Mead",
+                          bounds=list(zip(lb.astype(float), ub.astype(float))),
+                          options={"maxiter": 120, "xatol": 1e-5, "fatol": 1e-10})
+            start = np.minimum(np.maximum(np.asarray(r_.x, float), lb), ub)
+            rec.label("start:polished-by-a-derivative-free-search-of-the-same-cost")
+        except Exception as e:
+            rec.label("start:polish-failed:" + type(e).__name__)
     c_start_ref = _ref_cost_at(case, y, start)
     c_start_own = float(call(key + "/cost", case, obj.cost, start.copy()))
     bf = case.get("bound_form", "list")
